@@ -25,6 +25,23 @@
     }
     /// VERIF_TIER=thorough widens the input families (the bound printed in the evidence names both)
     pub fn thorough() -> bool { std::env::var("VERIF_TIER").map(|v| v == "thorough").unwrap_or(false) }
+    // "no single buffer larger than a small constant multiple of the input is ever requested": the test binary's
+    // allocator records the largest single request made while a closure runs (harness is single-threaded)
+    pub struct RecordingAlloc;
+    static MAX_REQUEST: std::sync::atomic::AtomicUsize = std::sync::atomic::AtomicUsize::new(0);
+    unsafe impl std::alloc::GlobalAlloc for RecordingAlloc {
+        unsafe fn alloc(&self, l: std::alloc::Layout) -> *mut u8 { MAX_REQUEST.fetch_max(l.size(), std::sync::atomic::Ordering::Relaxed); std::alloc::System.alloc(l) }
+        unsafe fn dealloc(&self, p: *mut u8, l: std::alloc::Layout) { std::alloc::System.dealloc(p, l) }
+        unsafe fn realloc(&self, p: *mut u8, l: std::alloc::Layout, n: usize) -> *mut u8 { MAX_REQUEST.fetch_max(n, std::sync::atomic::Ordering::Relaxed); std::alloc::System.realloc(p, l, n) }
+        unsafe fn alloc_zeroed(&self, l: std::alloc::Layout) -> *mut u8 { MAX_REQUEST.fetch_max(l.size(), std::sync::atomic::Ordering::Relaxed); std::alloc::System.alloc_zeroed(l) }
+    }
+    #[global_allocator]
+    static RECORDING_ALLOC: RecordingAlloc = RecordingAlloc;
+    pub fn largest_request_during<T>(f: impl FnOnce() -> T) -> (T, usize) {
+        MAX_REQUEST.store(0, std::sync::atomic::Ordering::Relaxed);
+        let r = f();
+        (r, MAX_REQUEST.load(std::sync::atomic::Ordering::Relaxed))
+    }
     pub fn hex(b: &[u8]) -> String {
         if b.len() <= 96 { b.iter().map(|x| format!("{:02x}", x)).collect::<Vec<_>>().join(" ") }
         else { format!("{} .. ({} bytes) .. {}", hex(&b[..48]), b.len(), hex(&b[b.len() - 16..])) }
